@@ -679,3 +679,442 @@ Proof.
       destruct v; try (eexists; reflexivity); try (exfalso; eapply Hv; reflexivity);
       destruct (resolve_slice_core _ _ _) as [[]|]; eexists; reflexivity.
 Qed.
+
+(* ================================================================ maps and sets are finite maps and finite sets *)
+
+Lemma assoc_map_set_same : forall m k v, assoc k (map_set k v m) = Some v.
+Proof.
+  induction m as [|[k' v'] m IH]; intros k v; simpl.
+  - rewrite bytes_eqb_refl. reflexivity.
+  - destruct (bytes_eqb k' k) eqn:E; simpl; rewrite E; auto.
+Qed.
+
+Lemma assoc_map_set_other : forall m k k' v, k' <> k -> assoc k' (map_set k v m) = assoc k' m.
+Proof.
+  induction m as [|[k0 v0] m IH]; intros k k' v H; simpl.
+  - assert (bytes_eqb k k' = false) as -> by (apply bytes_eqb_neq; congruence). reflexivity.
+  - destruct (bytes_eqb k0 k) eqn:E; simpl.
+    + apply bytes_eqb_eq in E. subst k0.
+      assert (bytes_eqb k k' = false) as -> by (apply bytes_eqb_neq; congruence). reflexivity.
+    + destruct (bytes_eqb k0 k'); auto.
+Qed.
+
+Lemma keys_map_set : forall m k v,
+  map fst (map_set k v m) = if existsb (bytes_eqb k) (map fst m) then map fst m else map fst m ++ [k].
+Proof.
+  induction m as [|[k0 v0] m IH]; intros k v; simpl; auto.
+  rewrite (bytes_eqb_sym k k0). destruct (bytes_eqb k0 k) eqn:E; simpl; auto.
+  rewrite IH. destruct (existsb (bytes_eqb k) (map fst m)); reflexivity.
+Qed.
+
+Lemma existsb_app_single : forall (f : bytes -> bool) l x, existsb f (l ++ [x]) = existsb f l || f x.
+Proof. intros. rewrite existsb_app. simpl. rewrite orb_false_r. reflexivity. Qed.
+
+Lemma keys_nodup_snoc : forall ks k, keys_nodup ks = true -> existsb (bytes_eqb k) ks = false -> keys_nodup (ks ++ [k]) = true.
+Proof.
+  induction ks as [|k0 ks IH]; intros k N E; simpl in *; auto.
+  apply andb_true_iff in N. destruct N as [N1 N2]. apply orb_false_iff in E. destruct E as [E1 E2].
+  rewrite existsb_app_single. apply negb_true_iff in N1. rewrite N1. rewrite (bytes_eqb_sym k0 k), E1. simpl.
+  apply IH; auto.
+Qed.
+
+Lemma map_set_nodup : forall m k v, keys_nodup (map fst m) = true -> keys_nodup (map fst (map_set k v m)) = true.
+Proof.
+  intros m k v N. rewrite keys_map_set. destruct (existsb (bytes_eqb k) (map fst m)) eqn:E; auto.
+  apply keys_nodup_snoc; auto.
+Qed.
+
+Lemma map_set_length : forall m k v,
+  length (map_set k v m) = match assoc k m with Some _ => length m | None => S (length m) end.
+Proof.
+  induction m as [|[k0 v0] m IH]; intros k v; simpl; auto.
+  destruct (bytes_eqb k0 k); simpl; auto. rewrite IH. destruct (assoc k m); reflexivity.
+Qed.
+
+Lemma assoc_map_del_other : forall m k k', k' <> k -> assoc k' (map_del k m) = assoc k' m.
+Proof.
+  induction m as [|[k0 v0] m IH]; intros k k' H; simpl; auto.
+  destruct (bytes_eqb k0 k) eqn:E; simpl.
+  - apply bytes_eqb_eq in E. subst k0.
+    assert (bytes_eqb k k' = false) as -> by (apply bytes_eqb_neq; congruence). reflexivity.
+  - destruct (bytes_eqb k0 k'); auto.
+Qed.
+
+Lemma assoc_not_in : forall m k, existsb (bytes_eqb k) (map fst m) = false -> assoc k m = None.
+Proof.
+  induction m as [|[k0 v0] m IH]; intros k H; simpl in *; auto.
+  apply orb_false_iff in H. destruct H as [H1 H2]. rewrite (bytes_eqb_sym k0 k), H1. auto.
+Qed.
+
+Lemma assoc_map_del_same : forall m k, keys_nodup (map fst m) = true -> assoc k (map_del k m) = None.
+Proof.
+  induction m as [|[k0 v0] m IH]; intros k N; simpl in *; auto.
+  apply andb_true_iff in N. destruct N as [N1 N2]. apply negb_true_iff in N1.
+  destruct (bytes_eqb k0 k) eqn:E; simpl.
+  - apply bytes_eqb_eq in E. subst k0. apply assoc_not_in. exact N1.
+  - rewrite E. auto.
+Qed.
+
+Lemma keys_map_del_incl : forall m k x, In x (map fst (map_del k m)) -> In x (map fst m).
+Proof.
+  induction m as [|[k0 v0] m IH]; intros k x H; simpl in *; auto.
+  destruct (bytes_eqb k0 k); simpl in *; auto. destruct H; auto. right. eapply IH; eauto.
+Qed.
+
+Lemma map_del_nodup : forall m k, keys_nodup (map fst m) = true -> keys_nodup (map fst (map_del k m)) = true.
+Proof.
+  induction m as [|[k0 v0] m IH]; intros k N; simpl in *; auto.
+  apply andb_true_iff in N. destruct N as [N1 N2].
+  destruct (bytes_eqb k0 k); simpl; auto.
+  apply andb_true_iff. split; auto.
+  apply negb_true_iff. apply negb_true_iff in N1.
+  destruct (existsb (bytes_eqb k0) (map fst (map_del k m))) eqn:E; auto.
+  apply existsb_exists in E. destruct E as [x [I Ex]]. apply keys_map_del_incl in I.
+  assert (existsb (bytes_eqb k0) (map fst m) = true) by (apply existsb_exists; eauto). congruence.
+Qed.
+
+Lemma map_del_length : forall m k, keys_nodup (map fst m) = true ->
+  length (map_del k m) = match assoc k m with Some _ => pred (length m) | None => length m end.
+Proof.
+  induction m as [|[k0 v0] m IH]; intros k N; simpl in *; auto.
+  apply andb_true_iff in N. destruct N as [N1 N2].
+  destruct (bytes_eqb k0 k); simpl; auto. rewrite IH by auto.
+  destruct (assoc k m) eqn:A; auto. destruct m; [discriminate | reflexivity].
+Qed.
+
+Lemma assoc_map_update : forall o m k, keys_nodup (map fst o) = true ->
+  assoc k (map_update m o) = match assoc k o with Some v => Some v | None => assoc k m end.
+Proof.
+  unfold map_update. induction o as [|[k0 v0] o IH]; intros m k N; simpl in *; auto.
+  apply andb_true_iff in N. destruct N as [N1 N2]. apply negb_true_iff in N1.
+  rewrite IH by auto. destruct (bytes_eqb k0 k) eqn:E.
+  - apply bytes_eqb_eq in E. subst k0. rewrite (assoc_not_in o k N1). apply assoc_map_set_same.
+  - destruct (assoc k o); auto. apply assoc_map_set_other. apply bytes_eqb_neq in E. congruence.
+Qed.
+
+Lemma map_update_nodup : forall o m, keys_nodup (map fst m) = true -> keys_nodup (map fst (map_update m o)) = true.
+Proof.
+  unfold map_update. induction o as [|[k0 v0] o IH]; intros m N; simpl; auto.
+  apply IH. apply map_set_nodup. exact N.
+Qed.
+
+(* keys(): the keys in increasing order, each once *)
+Lemma key_insert_perm : forall k ks, Permutation (key_insert k ks) (k :: ks).
+Proof.
+  induction ks as [|k0 ks IH]; simpl; auto.
+  destruct (bytes_cmp k k0); auto.
+  eapply perm_trans; [apply perm_skip; exact IH | apply perm_swap].
+Qed.
+
+Lemma sorted_keys_perm : forall m, Permutation (sorted_keys m) (map fst m).
+Proof.
+  unfold sorted_keys. intro m. induction (map fst m) as [|k ks IH]; simpl; auto.
+  eapply perm_trans; [apply key_insert_perm|]. apply perm_skip. exact IH.
+Qed.
+
+Definition key_le (a b : bytes) : Prop := bytes_cmp a b <> Gt.
+
+Lemma key_insert_sorted : forall k ks, StronglySorted key_le ks -> StronglySorted key_le (key_insert k ks).
+Proof.
+  induction ks as [|k0 ks IH]; intro S; simpl.
+  - repeat constructor.
+  - inversion S; subst. destruct (bytes_cmp k k0) eqn:C.
+    + constructor; auto. constructor.
+      * unfold key_le. rewrite C. discriminate.
+      * rewrite Forall_forall in *. intros x Ix. unfold key_le in *. apply bytes_cmp_eq in C. subst k0. apply H2. exact Ix.
+    + constructor; auto. constructor.
+      * unfold key_le. rewrite C. discriminate.
+      * rewrite Forall_forall in *. intros x Ix. specialize (H2 x Ix). unfold key_le in *.
+        intro G. destruct (bytes_cmp k0 x) eqn:C2.
+        -- apply bytes_cmp_eq in C2. subst x. congruence.
+        -- assert (bytes_cmp k x = Lt) by (apply (bytes_cmp_trans k k0 x); rewrite C, C2; reflexivity). congruence.
+        -- contradiction.
+    + constructor; auto.
+      eapply Permutation_Forall; [apply Permutation_sym; apply key_insert_perm|].
+      constructor; auto. unfold key_le. rewrite (bytes_cmp_antisym k k0), C. simpl. discriminate.
+Qed.
+
+Lemma sorted_keys_sorted : forall m, StronglySorted key_le (sorted_keys m).
+Proof.
+  unfold sorted_keys. intro m. induction (map fst m) as [|k ks IH]; simpl; [constructor|].
+  apply key_insert_sorted. exact IH.
+Qed.
+
+(* sets *)
+Definition set_mem (k : hkey) (s : list value) : bool := match set_find k s with Some _ => true | None => false end.
+
+Lemma set_find_add_same : forall s x k, hashkey x = Some k -> hkey_eqb k k = true -> set_find k (set_add x s) = Some x.
+Proof.
+  induction s as [|v s IH]; intros x k Hx R; simpl.
+  - rewrite Hx. simpl. rewrite R. reflexivity.
+  - rewrite Hx. destruct (ohkey_eqb (hashkey v) (Some k)) eqn:E; simpl.
+    + rewrite Hx. simpl. rewrite R. reflexivity.
+    + rewrite E. apply IH; auto.
+Qed.
+
+Lemma set_find_add_unhashable : forall s x k, hashkey x = None -> set_find k (set_add x s) = set_find k s.
+Proof.
+  induction s as [|v s IH]; intros x k Hx; simpl.
+  - rewrite Hx. reflexivity.
+  - rewrite Hx. assert (ohkey_eqb (hashkey v) None = false) as -> by (destruct (hashkey v); reflexivity).
+    simpl. destruct (ohkey_eqb (hashkey v) (Some k)); auto.
+Qed.
+
+Lemma set_find_add_other : forall s x k k', hashkey x = Some k -> hkey_eqb k k' = false ->
+  set_find k' (set_add x s) = set_find k' s.
+Proof.
+  induction s as [|v s IH]; intros x k k' Hx N; simpl.
+  - rewrite Hx. simpl. rewrite N. reflexivity.
+  - rewrite Hx. destruct (ohkey_eqb (hashkey v) (Some k)) eqn:E; simpl.
+    + rewrite Hx. simpl. rewrite N.
+      destruct (ohkey_eqb (hashkey v) (Some k')) eqn:E2; auto.
+      pose proof E as E'. apply ohkey_eqb_eq in E. apply ohkey_eqb_eq in E2. rewrite E in E2. inversion E2; subst.
+      rewrite E in E'. simpl in E'. congruence.
+    + destruct (ohkey_eqb (hashkey v) (Some k')); auto. apply (IH x k k'); auto.
+Qed.
+
+Lemma set_find_del_other : forall s k k', hkey_eqb k k' = false -> set_find k' (set_del k s) = set_find k' s.
+Proof.
+  induction s as [|v s IH]; intros k k' N; simpl; auto.
+  destruct (ohkey_eqb (hashkey v) (Some k)) eqn:E; simpl.
+  - destruct (ohkey_eqb (hashkey v) (Some k')) eqn:E2; auto.
+    pose proof E as E'. apply ohkey_eqb_eq in E. apply ohkey_eqb_eq in E2. rewrite E in E2. inversion E2; subst.
+    rewrite E in E'. simpl in E'. congruence.
+  - destruct (ohkey_eqb (hashkey v) (Some k')); auto.
+Qed.
+
+Lemma set_find_del_same : forall s k, hkeys_nodup s = true -> set_find k (set_del k s) = None.
+Proof.
+  induction s as [|v s IH]; intros k N; simpl in *; auto.
+  destruct (hashkey v) as [kv|] eqn:Hv; [|discriminate].
+  apply andb_true_iff in N. destruct N as [N1 N2]. apply negb_true_iff in N1.
+  simpl. destruct (hkey_eqb kv k) eqn:E; simpl.
+  - apply hkey_eqb_eq in E. subst kv.
+    clear - N1. induction s as [|w s IH]; simpl in *; auto.
+    apply orb_false_iff in N1. destruct N1 as [A B]. rewrite A. auto.
+  - rewrite Hv. simpl. rewrite E. auto.
+Qed.
+
+Lemma set_mem_union : forall b a k, set_mem k (set_union a b) = set_mem k b || set_mem k a.
+Proof.
+  unfold set_union, set_mem. induction b as [|x b IH]; intros a k; simpl; auto.
+  rewrite IH. destruct (ohkey_eqb (hashkey x) (Some k)) eqn:E.
+  - simpl. destruct (set_find k b); simpl; auto.
+    destruct (hashkey x) as [kx|] eqn:Hx; [|discriminate]. simpl in E.
+    pose proof (hkey_eqb_eq _ _ E) as K. subst kx.
+    rewrite (set_find_add_same a x k Hx E). reflexivity.
+  - destruct (set_find k b); simpl; auto.
+    destruct (hashkey x) as [kx|] eqn:Hx.
+    + simpl in E. rewrite (set_find_add_other a x kx k Hx E). reflexivity.
+    + rewrite (set_find_add_unhashable a x k Hx). reflexivity.
+Qed.
+
+Lemma set_find_filter_key : forall (f : value -> bool) a k,
+  (forall v, ohkey_eqb (hashkey v) (Some k) = true -> f v = true) -> set_find k (filter f a) = set_find k a.
+Proof.
+  induction a as [|v a IH]; intros k H; simpl; auto.
+  destruct (ohkey_eqb (hashkey v) (Some k)) eqn:E.
+  - rewrite (H v E). simpl. rewrite E. reflexivity.
+  - destruct (f v); simpl; [rewrite E|]; apply IH; auto.
+Qed.
+
+Lemma set_find_filter_none : forall (f : value -> bool) a k,
+  (forall v, ohkey_eqb (hashkey v) (Some k) = true -> f v = false) -> set_find k (filter f a) = None.
+Proof.
+  induction a as [|v a IH]; intros k H; simpl; auto.
+  destruct (f v) eqn:Fv; simpl.
+  - destruct (ohkey_eqb (hashkey v) (Some k)) eqn:E; [rewrite (H v E) in Fv; discriminate | apply IH; auto].
+  - apply IH; auto.
+Qed.
+
+Lemma set_mem_inter : forall a b k, set_mem k (set_inter a b) = set_mem k a && set_mem k b.
+Proof.
+  intros a b k. unfold set_mem, set_inter.
+  destruct (set_find k b) as [w|] eqn:Fb.
+  - rewrite set_find_filter_key; [rewrite andb_true_r; reflexivity|].
+    intros v E. destruct (hashkey v) as [kv|] eqn:Hv; [|discriminate]. simpl in E. apply hkey_eqb_eq in E. subst kv.
+    rewrite Fb. reflexivity.
+  - rewrite set_find_filter_none; [rewrite andb_false_r; reflexivity|].
+    intros v E. destruct (hashkey v) as [kv|] eqn:Hv; [|discriminate]. simpl in E. apply hkey_eqb_eq in E. subst kv.
+    rewrite Fb. reflexivity.
+Qed.
+
+(* ================================================================ byte_slices *)
+
+Lemma skipn_skipn' : forall (A : Type) (l : list A) x y, skipn x (skipn y l) = skipn (y + x) l.
+Proof.
+  intros A l x y. revert l. induction y as [|y IH]; intro l; simpl; auto.
+  destruct l; simpl; [destruct x; reflexivity | apply IH].
+Qed.
+
+
+Definition bwf (st : bstate) : Prop :=
+  Forall (fun o => (b_arr o < length (b_heap st))%nat /\
+                   (b_off o + b_len o <= length (nth (b_arr o) (b_heap st) []))%nat) (b_objs st).
+
+Lemma b_view_length : forall st o, (b_off o + b_len o <= length (nth (b_arr o) (b_heap st) []))%nat ->
+  length (b_view st o) = b_len o.
+Proof. intros st o H. unfold b_view. rewrite firstn_length, skipn_length. lia. Qed.
+
+Lemma b_view_heap_ext : forall heap objs extra objs' o, (b_arr o < length heap)%nat ->
+  b_view (BS (heap ++ extra) objs') o = b_view (BS heap objs) o.
+Proof. intros. unfold b_view. cbn [b_heap]. rewrite app_nth1 by assumption. reflexivity. Qed.
+
+Lemma b_alloc_sim : forall st l, bwf st ->
+  babs (fst (b_alloc st l)) = babs st ++ [l] /\ snd (b_alloc st l) = RRef (length (babs st)) /\ bwf (fst (b_alloc st l)).
+Proof.
+  intros [heap objs] l W. unfold b_alloc, babs, bwf in *. cbn [fst snd b_heap b_objs] in *.
+  rewrite map_app, map_length. split; [|split; [reflexivity|]].
+  - f_equal.
+    + apply map_ext_in. intros o I. rewrite Forall_forall in W. destruct (W o I) as [A _].
+      apply (b_view_heap_ext heap objs [l] (objs ++ [BO (length heap) 0 (length l)]) o A).
+    + simpl. unfold b_view. cbn [b_arr b_off b_len b_heap]. rewrite app_nth2 by lia. rewrite Nat.sub_diag. simpl.
+      rewrite firstn_all. reflexivity.
+  - apply Forall_app. split.
+    + eapply Forall_impl; [|exact W]. intros o [A B]. rewrite app_length. split; [lia|]. rewrite app_nth1 by assumption. exact B.
+    + constructor; [|constructor]. cbn [b_arr b_off b_len]. rewrite app_length. simpl. split; [lia|].
+      rewrite app_nth2 by lia. rewrite Nat.sub_diag. simpl. lia.
+Qed.
+
+Lemma bstep_sim : forall st o, bwf st -> is_bset o = false ->
+  rbstep (babs st) o = (babs (fst (bstep st o)), snd (bstep st o)) /\ bwf (fst (bstep st o)).
+Proof.
+  intros st o W H. destruct o; try discriminate; unfold rbstep, bstep.
+  - destruct (b_alloc_sim st l W) as (A & B & C). rewrite A, B. auto.
+  - unfold babs at 1. rewrite nth_error_map'. destruct (nth_error (b_objs st) r) as [bo|] eqn:En; simpl; [|auto].
+    assert (Wb := Forall_nth_error _ _ _ _ _ W En). destruct Wb as [Wa Wl].
+    rewrite (b_view_length st bo Wl). destruct k; auto.
+    destruct (resolve_index z (Z.of_nat (b_len bo))); auto.
+  - unfold babs at 1. rewrite nth_error_map'. destruct (nth_error (b_objs st) r) as [bo|] eqn:En; simpl; [|auto].
+    assert (Wb := Forall_nth_error _ _ _ _ _ W En). destruct Wb as [Wa Wl].
+    rewrite (b_view_length st bo Wl).
+    destruct (resolve_slice lo hi (Z.of_nat (b_len bo))) as [[a b]|e] eqn:Rs; [|auto].
+    apply resolve_slice_ok in Rs; [|lia]. cbn [fst snd].
+    unfold babs. cbn [b_objs b_heap]. rewrite map_app, map_length. split.
+    + assert (E1 : forall st' : bstate, b_heap st' = b_heap st -> map (b_view st') (b_objs st) = map (b_view st) (b_objs st)).
+      { intros st' Hh. apply map_ext. intro o. unfold b_view. rewrite Hh. reflexivity. }
+      f_equal. f_equal. simpl. f_equal.
+      unfold b_view. cbn [b_arr b_off b_len b_heap].
+      set (X := nth (b_arr bo) (b_heap st) []).
+      rewrite skipn_firstn_comm. rewrite firstn_firstn. rewrite skipn_skipn'.
+      replace (Nat.min (Z.to_nat b - Z.to_nat a) (b_len bo - Z.to_nat a)) with (Z.to_nat b - Z.to_nat a)%nat by lia.
+      first [reflexivity | f_equal; f_equal; lia].
+    + unfold bwf. cbn [b_objs b_heap]. apply Forall_app. split; [exact W|].
+      constructor; [|constructor]. cbn [b_arr b_off b_len]. split; [exact Wa | lia].
+  - unfold babs at 1. rewrite nth_error_map'. destruct (nth_error (b_objs st) r) as [bo|] eqn:En; cbn [option_map]; [|auto].
+    destruct (b_alloc_sim st (b_view st bo) W) as (A & B & C). rewrite A, B. unfold babs. rewrite map_length. auto.
+  - unfold babs at 1. rewrite nth_error_map'. destruct (nth_error (b_objs st) r) as [bo|] eqn:En; simpl; [|auto].
+    assert (Wb := Forall_nth_error _ _ _ _ _ W En). destruct Wb as [Wa Wl].
+    rewrite (b_view_length st bo Wl). auto.
+  - unfold babs at 1 2. rewrite !nth_error_map'.
+    destruct (nth_error (b_objs st) r) as [bo|] eqn:En; destruct (nth_error (b_objs st) r2) as [bo2|] eqn:En2; cbn [option_map]; auto.
+    destruct (b_alloc_sim st (b_view st bo ++ b_view st bo2) W) as (A & B & C). rewrite A, B. unfold babs. rewrite map_length. auto.
+Qed.
+
+Theorem brun_refines : forall ops st, bwf st -> forallb (fun o => negb (is_bset o)) ops = true ->
+  rbrun (babs st) ops = (babs (fst (brun st ops)), snd (brun st ops)) /\ bwf (fst (brun st ops)).
+Proof.
+  induction ops as [|o ops IH]; intros st W H; simpl; [auto|].
+  simpl in H. apply andb_true_iff in H. destruct H as [H1 H2]. apply negb_true_iff in H1.
+  destruct (bstep_sim st o W H1) as [E W1]. rewrite E.
+  destruct (bstep st o) as [s1 out]. cbn [fst snd] in *.
+  destruct (IH s1 W1 H2) as [E2 W2]. rewrite E2.
+  destruct (brun s1 ops) as [s2 outs]. cbn [fst snd] in *. auto.
+Qed.
+
+(* ================================================================ strings: UTF-8 round trip, index and slice by code point *)
+
+From Coq Require Import ZifyBool.
+
+Section Utf8.
+  Local Ltac Zify.zify_post_hook ::= Z.to_euclidean_division_equations.
+
+  Ltac resolve_if :=
+    match goal with
+    | |- context[if ?c then _ else _] =>
+        let H := fresh "Hc" in
+        first [ assert (H : c = true) by lia; rewrite H; clear H
+              | assert (H : c = false) by lia; rewrite H; clear H ]
+    end.
+
+  Lemma utf8_decode_encode : forall c rest f, valid_cp c = true ->
+    utf8_decode (S f) (utf8_encode c ++ rest) = c :: utf8_decode f rest.
+  Proof.
+    intros c rest f V. unfold valid_cp in V.
+    assert (R : 0 <= c <= 1114111 /\ ~ (55296 <= c <= 57343)) by lia. clear V. destruct R as [R1 R2].
+    unfold utf8_encode.
+    assert ((c <? 0) = false) as -> by lia.
+    destruct (Z.ltb_spec c 128).
+    - cbn [app utf8_decode]. assert ((c <? 128) = true) as -> by lia. reflexivity.
+    - destruct (Z.ltb_spec c 2048).
+      + cbn [app utf8_decode]. repeat resolve_if. f_equal. lia.
+      + assert (((55296 <=? c) && (c <=? 57343)) = false) as -> by lia.
+        destruct (Z.ltb_spec c 65536).
+        * cbn [app utf8_decode]. repeat resolve_if.
+          destruct (Z.eqb_spec (224 + c / 4096) 224); destruct (Z.eqb_spec (224 + c / 4096) 237);
+            repeat resolve_if; f_equal; lia.
+        * assert ((c <=? 1114111) = true) as -> by lia.
+          cbn [app utf8_decode]. repeat resolve_if.
+          destruct (Z.eqb_spec (240 + c / 262144) 240); destruct (Z.eqb_spec (240 + c / 262144) 244);
+            repeat resolve_if; f_equal; lia.
+  Qed.
+End Utf8.
+
+Lemma utf8_encode_nonempty : forall c, (1 <= length (utf8_encode c))%nat.
+Proof.
+  intro c. unfold utf8_encode.
+  repeat match goal with |- context[if ?b then _ else _] => destruct b end; simpl; lia.
+Qed.
+
+Lemma utf8_string_length : forall cps, (length cps <= length (utf8_string cps))%nat.
+Proof.
+  induction cps as [|c cps IH]; simpl; auto. unfold utf8_string in *. simpl. rewrite app_length.
+  pose proof (utf8_encode_nonempty c). lia.
+Qed.
+
+Lemma utf8_decode_string : forall cps f, forallb valid_cp cps = true -> (length cps <= f)%nat ->
+  utf8_decode f (utf8_string cps) = cps.
+Proof.
+  induction cps as [|c cps IH]; intros f V L.
+  - destruct f; reflexivity.
+  - simpl in V. apply andb_true_iff in V. destruct V as [V1 V2].
+    destruct f as [|f]; [simpl in L; lia|].
+    change (utf8_string (c :: cps)) with (utf8_encode c ++ utf8_string cps).
+    rewrite utf8_decode_encode by assumption. f_equal. apply IH; auto. simpl in L. lia.
+Qed.
+
+Theorem runes_utf8_string : forall cps, forallb valid_cp cps = true -> runes_of (utf8_string cps) = cps.
+Proof.
+  intros cps V. unfold runes_of. apply utf8_decode_string; auto.
+  pose proof (utf8_string_length cps). lia.
+Qed.
+
+Theorem str_get_by_code_point : forall cps k, forallb valid_cp cps = true ->
+  str_get (utf8_string cps) k = match cp_get cps k with Ok c => Ok (VStr (utf8_string c)) | Er e => Er e end.
+Proof.
+  intros cps k V. unfold str_get, cp_get. rewrite (runes_utf8_string cps V).
+  destruct k; try reflexivity.
+  destruct (resolve_index z (Z.of_nat (length cps))); try reflexivity.
+  unfold utf8_string. simpl. rewrite app_nil_r. reflexivity.
+Qed.
+
+Theorem str_slice_by_code_point : forall cps lo hi, forallb valid_cp cps = true ->
+  str_slice (utf8_string cps) lo hi = match cp_slice cps lo hi with Ok c => Ok (VStr (utf8_string c)) | Er e => Er e end.
+Proof.
+  intros cps lo hi V. unfold str_slice, cp_slice. rewrite (runes_utf8_string cps V).
+  destruct (resolve_slice lo hi (Z.of_nat (length cps))) as [[a b]|e]; reflexivity.
+Qed.
+
+Theorem str_len_by_code_point : forall cps, forallb valid_cp cps = true ->
+  str_len (utf8_string cps) = Z.of_nat (length cps).
+Proof. intros cps V. unfold str_len. rewrite (runes_utf8_string cps V). reflexivity. Qed.
+
+(* what an index / slice on code points returns *)
+Theorem cp_get_spec : forall cps i,
+  cp_get cps (VInt i) =
+  let n := Z.of_nat (length cps) in
+  if (- n <=? i) && (i <? n) then Ok [nth (Z.to_nat (i mod n)) cps 0] else Er EIndex.
+Proof.
+  intros cps i. unfold cp_get. cbv zeta. rewrite resolve_index_spec by lia.
+  destruct ((- Z.of_nat (length cps) <=? i) && (i <? Z.of_nat (length cps))); reflexivity.
+Qed.
